@@ -1,0 +1,187 @@
+//go:build verif
+
+package gkvlite
+
+import (
+	"sync/atomic"
+	"unsafe"
+)
+
+// This file is only compiled with the "verif" build tag.  It exposes
+// yield points and side-effect free introspection for external runtime
+// monitors.  Nothing in here changes the behaviour of the package.
+
+type verifPointFunc func(name string)
+
+var verifPointFn atomic.Value // holds verifPointFunc
+
+// VerifSetPoint installs (or with nil removes) the function invoked at
+// every verifPoint.
+func VerifSetPoint(f func(name string)) {
+	verifPointFn.Store(verifPointFunc(f))
+}
+
+func verifPoint(name string) {
+	if f, ok := verifPointFn.Load().(verifPointFunc); ok && f != nil {
+		f(name)
+	}
+}
+
+// VerifFreeNodes returns the addresses of the nodes on the global free list.
+func VerifFreeNodes() map[uintptr]struct{} {
+	res := map[uintptr]struct{}{}
+	freeNodeLock.Lock()
+	for n := freeNodes; n != nil; n = n.next {
+		if _, dup := res[uintptr(unsafe.Pointer(n))]; dup {
+			break // cycle: reported by the caller through the count mismatch
+		}
+		res[uintptr(unsafe.Pointer(n))] = struct{}{}
+	}
+	freeNodeLock.Unlock()
+	return res
+}
+
+// VerifFreeNodeLocs returns the addresses of the nodeLocs on the global free list.
+func VerifFreeNodeLocs() map[uintptr]struct{} {
+	res := map[uintptr]struct{}{}
+	freeNodeLocLock.Lock()
+	for n := freeNodeLocs; n != nil; n = n.next {
+		if _, dup := res[uintptr(unsafe.Pointer(n))]; dup {
+			break
+		}
+		res[uintptr(unsafe.Pointer(n))] = struct{}{}
+	}
+	freeNodeLocLock.Unlock()
+	return res
+}
+
+// VerifFreeRootNodeLocs returns the addresses of the rootNodeLocs on the global free list.
+func VerifFreeRootNodeLocs() map[uintptr]struct{} {
+	res := map[uintptr]struct{}{}
+	freeRootNodeLocLock.Lock()
+	for n := freeRootNodeLocs; n != nil; n = n.next {
+		if _, dup := res[uintptr(unsafe.Pointer(n))]; dup {
+			break
+		}
+		res[uintptr(unsafe.Pointer(n))] = struct{}{}
+	}
+	freeRootNodeLocLock.Unlock()
+	return res
+}
+
+// VerifNode describes one cached node of a collection's current version.
+type VerifNode struct {
+	Addr     uintptr // address of the node struct
+	Parent   uintptr // address of the parent node (0 for the root)
+	Side     int     // 0 root, -1 left child, +1 right child
+	Depth    int
+	NumNodes uint64
+	NumBytes uint64
+
+	NodeOff int64 // persisted location of this node (0,0 when dirty)
+	NodeLen uint32
+
+	Item    *Item // cached item or nil; must only be read
+	ItemOff int64
+	ItemLen uint32
+
+	LeftOff, RightOff       int64
+	LeftLen, RightLen       uint32
+	LeftCached, RightCached bool
+
+	Next uintptr // n.next (free-list link or reclaim mark), 0 when nil
+}
+
+// VerifRoot describes the current version handle of a collection.
+type VerifRoot struct {
+	Open        bool // false when the collection was closed (root == nil)
+	Addr        uintptr
+	Refs        int64
+	Chained     bool
+	RootLocAddr uintptr
+	MarkAddr    uintptr
+	RootOff     int64
+	RootLen     uint32
+	RootCached  bool
+	RootEmpty   bool
+}
+
+// VerifRootInfo reports the current version handle under the collection's own lock.
+func VerifRootInfo(t *Collection) (res VerifRoot) {
+	if t == nil || t.rootLock == nil {
+		return res
+	}
+	t.rootLock.Lock()
+	defer t.rootLock.Unlock()
+	r := t.root
+	if r == nil {
+		return res
+	}
+	res.Open = true
+	res.Addr = uintptr(unsafe.Pointer(r))
+	res.Refs = r.refs
+	res.Chained = r.chainedRootNodeLoc != nil
+	res.RootLocAddr = uintptr(unsafe.Pointer(r.root))
+	res.MarkAddr = uintptr(unsafe.Pointer(&r.reclaimMark))
+	if r.root != nil {
+		if r.root.loc != nil {
+			res.RootOff, res.RootLen = r.root.loc.Offset, r.root.loc.Length
+		}
+		res.RootCached = r.root.node != nil
+		res.RootEmpty = r.root.loc.isEmpty() && r.root.node == nil
+	}
+	return res
+}
+
+// VerifWalk visits, in pre-order, every node of t's current version that is
+// cached in memory.  It never loads anything, never touches reference counts
+// and never invokes callbacks.  It must only be called while no mutation of
+// the collection is in progress.  Returns false if the collection is closed.
+func VerifWalk(t *Collection, visit func(VerifNode)) bool {
+	if t == nil || t.rootLock == nil {
+		return false
+	}
+	t.rootLock.Lock()
+	r := t.root
+	var nloc *nodeLoc
+	if r != nil {
+		nloc = r.root
+	}
+	t.rootLock.Unlock()
+	if r == nil {
+		return false
+	}
+	verifWalk(nloc, 0, 0, 0, visit, 0)
+	return true
+}
+
+func verifWalk(nloc *nodeLoc, parent uintptr, side int, depth int, visit func(VerifNode), guard int) {
+	if nloc == nil || guard > 1<<20 {
+		return
+	}
+	n := nloc.node
+	if n == nil {
+		return
+	}
+	v := VerifNode{
+		Addr: uintptr(unsafe.Pointer(n)), Parent: parent, Side: side, Depth: depth,
+		NumNodes: n.numNodes, NumBytes: n.numBytes,
+		Item: n.item.item, Next: uintptr(unsafe.Pointer(n.next)),
+		LeftCached: n.left.node != nil, RightCached: n.right.node != nil,
+	}
+	if nloc.loc != nil {
+		v.NodeOff, v.NodeLen = nloc.loc.Offset, nloc.loc.Length
+	}
+	if n.item.loc != nil {
+		v.ItemOff, v.ItemLen = n.item.loc.Offset, n.item.loc.Length
+	}
+	if n.left.loc != nil {
+		v.LeftOff, v.LeftLen = n.left.loc.Offset, n.left.loc.Length
+	}
+	if n.right.loc != nil {
+		v.RightOff, v.RightLen = n.right.loc.Offset, n.right.loc.Length
+	}
+	visit(v)
+	verifWalk(&n.left, v.Addr, -1, depth+1, visit, guard+1)
+	verifWalk(&n.right, v.Addr, +1, depth+1, visit, guard+1)
+}
